@@ -431,6 +431,8 @@ pub struct Stats {
     pub x_refreshes: u64,
     pub unchanged_sessions: u64,
     pub dropped_executions: u64,
+    /// query returns right after a restart for which no executor ran at all
+    pub served_from_store_after_restart: u64,
 }
 
 /// Oracle state carried along one history.
@@ -666,6 +668,7 @@ pub async fn run_sequential<B: Backend>(
     let mut shutdown_ok = true;
     let mut last_session_changed = true;
     let mut first_query_in_epoch = true;
+    let mut just_restarted = false;
 
     for step in history {
         match step {
@@ -828,6 +831,15 @@ pub async fn run_sequential<B: Backend>(
                     }
                 }
                 let recs = ctx.log.take();
+                if std::env::var("QV_DEBUG3").is_ok() {
+                    eprintln!("DEBUG3 epoch {} roots={:?} recs={:?}", or.epoch, roots, recs.iter().map(|x| (x.node, x.reads.clone(), x.result.clone())).collect::<Vec<_>>());
+                }
+                if just_restarted {
+                    if recs.is_empty() {
+                        or.stats.served_from_store_after_restart += roots.len() as u64;
+                    }
+                    just_restarted = false;
+                }
                 or.judge(&recs, false, false);
                 or.count_cutoffs();
                 first_query_in_epoch = false;
@@ -843,6 +855,7 @@ pub async fn run_sequential<B: Backend>(
                 engine = open_engine(b, &ctx, yield_freq).await.expect("reopen");
                 // a restart opens no new epoch; statistics are in-memory only
                 last_session_changed = true;
+                just_restarted = true;
             }
         }
         steps_done += 1;
